@@ -91,6 +91,24 @@ fn check_methods(m: usize, changed: usize, extra: usize) -> Option<(String, Stri
     None
 }
 
+// MLE estimator: two sets sketched with the same parameters; must return a finite value in [0,1] and not abort
+fn check_mle(m: usize, na: u64, nb: u64, shift: u64) -> Option<(String, String)> {
+    use crate::setsketcher::{MleJaccard, SetSketchParams, SetSketcher};
+    let mut p = SetSketchParams::default();
+    p.set_m(m);
+    let mut sa = SetSketcher::<u16, u64, FnvHasher>::new(p, BuildHasherDefault::<FnvHasher>::default());
+    let mut sb = SetSketcher::<u16, u64, FnvHasher>::new(p, BuildHasherDefault::<FnvHasher>::default());
+    for x in 0..na { sa.sketch(&x).unwrap(); }
+    for x in shift..shift + nb { sb.sketch(&x).unwrap(); }
+    let (ka, kb) = (sa.get_signature().clone(), sb.get_signature().clone());
+    let r = quiet(move || { let mle = MleJaccard::from(p); mle.get_mle(&ka, &kb) });
+    match r {
+        None => Some((format!("get_mle aborted (panic) for |A| = {na}, |B| = {nb}, B starting at {shift}, m = {m}"), "a finite value in [0,1]".into())),
+        Some(Some(v)) if v.is_finite() && (0.0..=1.0).contains(&v) => None,
+        Some(other) => Some((format!("get_mle returned {:?}", other), "a finite value in [0,1]".into())),
+    }
+}
+
 #[test]
 fn verif_replay_c14() {
     let mode = std::env::var("VERIF_REPLAY_MODE").unwrap_or_default();
@@ -99,7 +117,10 @@ fn verif_replay_c14() {
     let tov = |v: &serde_json::Value| -> Vec<u64> { v.as_array().unwrap().iter().map(|x| x.as_u64().unwrap()).collect() };
     if mode == "replay" {
         let w = &inp["input"];
-        if w["kind"] == "method" {
+        if w["kind"] == "mle" {
+            match check_mle(w["m"].as_u64().unwrap() as usize, w["na"].as_u64().unwrap(), w["nb"].as_u64().unwrap(), w["shift"].as_u64().unwrap()) {
+                Some((o, e)) => out(true, w.clone(), o, e, 1), None => out(false, w.clone(), "finite value in [0,1]".into(), "".into(), 1) }
+        } else if w["kind"] == "method" {
             match check_methods(w["m"].as_u64().unwrap() as usize, w["changed"].as_u64().unwrap() as usize, w["extra"].as_u64().unwrap() as usize) {
                 Some((o, e)) => out(true, w.clone(), o, e, 1), None => out(false, w.clone(), "as specified".into(), "".into(), 1) }
         } else {
@@ -133,6 +154,10 @@ fn verif_replay_c14() {
                 if let Some((o, e)) = check_methods(m, changed, extra) { out(true, serde_json::json!({"kind": "method", "m": m, "changed": changed, "extra": extra}), o, e, cases); return; }
             }
         }
+    }
+    for (m, na, nb, shift) in [(256usize, 1000u64, 1000u64, 500u64), (256, 100, 10000, 0), (256, 10000, 100, 0), (64, 5000, 5000, 0), (64, 50, 50, 1000), (1024, 300, 30000, 100), (128, 2000, 40, 10)] {
+        cases += 1;
+        if let Some((o, e)) = check_mle(m, na, nb, shift) { out(true, serde_json::json!({"kind": "mle", "m": m, "na": na, "nb": nb, "shift": shift}), o, e, cases); return; }
     }
     out(false, serde_json::Value::Null, "no disagreement".into(), "".into(), cases);
 }
